@@ -239,9 +239,9 @@ func combineTypes(types []*Type) *Type {
 			// a variable keeps its type, the other values must be
 			// constants that convert to it
 			switch {
-			case t.Fixed && !combinedT.Fixed && t.accepts(combinedT):
+			case t.Fixed && !combinedT.Fixed && (t.accepts(combinedT) || absorbs(t, combinedT)):
 				combinedT = t
-			case combinedT.Fixed && !t.Fixed && combinedT.accepts(t):
+			case combinedT.Fixed && !t.Fixed && (combinedT.accepts(t) || absorbs(combinedT, t)):
 				// keep combinedT
 			default:
 				return ANY_TYPE
@@ -264,6 +264,18 @@ func combineTypes(types []*Type) *Type {
 		return ANY_TYPE
 	}
 	return combinedT
+}
+
+// absorbs reports whether the elements of a literal of type lit, which may
+// be variables, all fit the element type of the variable type fixed, so that
+// the literal combines with the variable to the variable's type whatever
+// their order, e.g. z:[]any and [z].
+func absorbs(fixed, lit *Type) bool {
+	if fixed.Name != lit.Name || (fixed.Name != ARRAY && fixed.Name != MAP) || fixed.Sub == nil || lit.Sub == nil {
+		return false
+	}
+	sub := combineTypes([]*Type{fixedType(fixed.Sub), lit.Sub})
+	return sub.Equals(fixed.Sub)
 }
 
 // fixedDepth returns the nesting level at which t becomes the fixed type of
